@@ -79,7 +79,36 @@ def q_at(ex, args, kwargs):
         ex.spec_mode = saved
 
 
+def q_mhas(ex, args, kwargs):
+    from . import models as M
+
+    m, k = args
+    return M.contains(ex, m, k)
+
+
+def q_mget(ex, args, kwargs):
+    from . import models as M
+    from .values import DObj, ElemRef, MObj, Obj, Ref
+
+    m, k, name = args
+    ho = ex.obj(m)
+    if isinstance(ho, MObj):
+        v = M.elem_get(ex, ElemRef(m, M.plain(k)), name, raw=True)
+        return v
+    if isinstance(ho, DObj):
+        key = M.dict_find(ex, ho, M.wrap_key(k))
+        if key is M._MISSING:
+            return 0
+        v = ex.getattr(ex.wrap(ho.items[key], m), name)
+        if isinstance(v, Ref) and isinstance(ex.obj(v), Obj) and '_flag' in ex.obj(v).fields:
+            return ex.obj(v).fields['_flag']
+        return v
+    raise Unsupported('mget on a non-dict')
+
+
 SPEC_FORMS = {
+    C.mhas: q_mhas,
+    C.mget: q_mget,
     C.at: q_at,
     C.forall: q_forall,
     C.exists: q_exists,
@@ -90,5 +119,167 @@ SPEC_FORMS = {
 }
 
 
+_REC_CACHE = {}
+
+
+def _free_consts(t, acc, seen):
+    if t.get_id() in seen:
+        return
+    seen.add(t.get_id())
+    if z3.is_const(t) and t.decl().kind() == z3.Z3_OP_UNINTERPRETED:
+        acc[t.decl().name()] = t
+        return
+    if z3.is_quantifier(t):
+        _free_consts(t.body(), acc, seen)
+        return
+    for c in t.children():
+        _free_consts(c, acc, seen)
+
+
 def symbolic_comprehension(ex, elt, gens, node):
-    return None
+    """[elt for target in SEQ if cond] over a sequence of symbolic length becomes an
+    application of a recursively defined function (filter/map); its basic inductive
+    lemmas are generated as obligations and instantiated as hints."""
+    import ast
+
+    from . import models as M
+    from .engine import Obligation
+    from .values import Frame, LObj, Ref
+
+    if len(gens) != 1 or gens[0].is_async:
+        return None
+    g = gens[0]
+    it = ex.eval(g.iter)
+    seq = ex.as_symseq(it)
+    if seq is None:
+        if ex.concrete_iter(it) is None:
+            raise Unsupported('comprehension over an iterable that is neither concrete nor a symbolic sequence')
+        # concrete spine: let the generic unrolling handle it, but do not evaluate g.iter twice
+        return ('concrete', it)
+    in_kind = 'int' if seq.k == 'bytes' else seq.k[1]
+    in_sort = M.sort_of(in_kind)
+    e = z3.Const(ex.fresh_name('elem'), in_sort)
+    frame = ex.alloc(Frame())
+    saved_scope = ex.scope
+    ex.scope = [frame] + list(ex.scope)
+    n0 = len(ex.pc)
+    ex.quant += 1
+    ex.spec_mode += 1
+    try:
+        ex.assign(g.target, M.elem_to_value(ex, e, in_kind))
+        conds = [ex.truth(ex.eval(c)) for c in g.ifs]
+        ev = ex.eval(elt)
+    finally:
+        ex.quant -= 1
+        ex.spec_mode -= 1
+        ex.scope = saved_scope
+    del ex.pc[n0:]
+    cterm = z3.And(*[zbool(c) if not isinstance(c, bool) else z3.BoolVal(c) for c in conds]) if conds else z3.BoolVal(True)
+    out_kind = M.guess_kind(ex, ev)
+    mterm = M.value_to_elem(ex, ev, out_kind)
+    out_sort = M.sort_of(out_kind)
+    identity = False
+    if out_sort == in_sort:
+        if z3.simplify(mterm).eq(e):
+            identity = True
+        else:
+            chk = z3.Solver()
+            chk.set('timeout', 2000)
+            chk.add(mterm != e)
+            identity = chk.check() == z3.unsat
+    fv = {}
+    seen = set()
+    _free_consts(cterm, fv, seen)
+    _free_consts(mterm, fv, seen)
+    fv.pop(e.decl().name(), None)
+    names = sorted(fv)
+    actuals = [fv[n] for n in names]
+    # canonical key: body with the element and the free variables replaced by placeholders
+    ph_e = z3.Const('__e', in_sort)
+    phs = [z3.Const(f'__p{i}', a.sort()) for i, a in enumerate(actuals)]
+    sub = [(e, ph_e)] + list(zip(actuals, phs))
+    c_can = z3.substitute(cterm, *sub)
+    m_can = z3.substitute(mterm, *sub)
+    key = (c_can.sexpr(), m_can.sexpr(), str(in_sort), str(out_sort), tuple(str(p.sort()) for p in phs))
+    ent = _REC_CACHE.get(key)
+    if ent is None:
+        idx = len(_REC_CACHE)
+        S = z3.Const('__s', z3.SeqSort(in_sort))
+        F = z3.RecFunction(f'comp{idx}', z3.SeqSort(in_sort), *[p.sort() for p in phs], z3.SeqSort(out_sort))
+        head = S[0]
+        c_h = z3.substitute(c_can, (ph_e, head))
+        m_h = z3.substitute(m_can, (ph_e, head))
+        tail = z3.Extract(S, 1, z3.Length(S) - 1)
+        body = z3.If(
+            z3.Length(S) == 0,
+            z3.Empty(z3.SeqSort(out_sort)),
+            z3.Concat(z3.If(c_h, z3.Unit(m_h), z3.Empty(z3.SeqSort(out_sort))), F(tail, *phs)),
+        )
+        z3.RecAddDefinition(F, [S] + phs, body)
+        ent = {'F': F, 'idx': idx, 'S': S, 'phs': phs, 'c': c_can, 'm': m_can, 'ph_e': ph_e, 'identity': bool(identity), 'in_sort': in_sort, 'out_sort': out_sort, 'lemmas_done': False}
+        _REC_CACHE[key] = ent
+    F = ent['F']
+    res = F(seq.t, *actuals)
+    # lemma obligations (once per function per run): proved by induction on the sequence
+    for nm, ih, goal in _lemmas(ent):
+        name = ex.cfg.obl_name(ex, 'lemma', f'comp{ent["idx"]}-{nm}')
+        kkey = ('lemma', name)
+        if not any(o.key == kkey for o in ex.obligations):
+            ex.obligations.append(Obligation(name, 'lemma', list(ih), goal, ex.cur_loc, kkey, {'def_ids': set()}))
+    # instances of the lemmas for this application (hints)
+    for f in _instances(ent, seq.t, actuals, res):
+        ex.add_def(f)
+    out_seq_kind = ('seq', out_kind)
+    return ('sym', Sym(res, out_seq_kind))
+
+
+def _lemmas(ent):
+    """(name, induction hypotheses, goal): goal is the statement for an arbitrary non-empty or
+    empty s, hypotheses the same statement for its tail"""
+    S, phs, F = ent['S'], ent['phs'], ent['F']
+    tail = z3.Extract(S, 1, z3.Length(S) - 1)
+
+    def stmt_len(x):
+        return z3.Length(F(x, *phs)) <= z3.Length(x)
+
+    out = [('len', [z3.Implies(z3.Length(S) > 0, stmt_len(tail))], stmt_len(S))]
+    if z3.is_true(z3.simplify(ent['c'])):
+
+        def stmt_leneq(x):
+            return z3.Length(F(x, *phs)) == z3.Length(x)
+
+        out = [('len-eq', [z3.Implies(z3.Length(S) > 0, stmt_leneq(tail))], stmt_leneq(S))]
+    i = z3.Int('__i')
+
+    def stmt_all(x):
+        fx = F(x, *phs)
+        # every produced element is the image of an element satisfying the condition: for the
+        # identity map, the condition holds of every element of the result
+        return z3.ForAll([i], z3.Implies(z3.And(i >= 0, i < z3.Length(fx)), z3.substitute(ent['c'], (ent['ph_e'], fx[i]))))
+
+    def stmt_id(x):
+        fx = F(x, *phs)
+        return z3.Implies(z3.Length(fx) == z3.Length(x), fx == x)
+
+    def inst_all(x, j):
+        fx = F(x, *phs)
+        return z3.Implies(z3.And(j >= 0, j < z3.Length(fx)), z3.substitute(ent['c'], (ent['ph_e'], fx[j])))
+
+    if ent['identity']:
+        # the quantified statement is proved for an arbitrary index __i; the induction
+        # hypothesis (for the tail) is instantiated at __i and __i - 1
+        out.append(('all-satisfy', [z3.Implies(z3.Length(S) > 0, z3.And(inst_all(tail, i), inst_all(tail, i - 1), stmt_len(tail)))], inst_all(S, i)))
+        out.append(('id-if-same-length', [z3.Implies(z3.Length(S) > 0, z3.And(stmt_id(tail), stmt_len(tail)))], stmt_id(S)))
+    return out
+
+
+def _instances(ent, s, actuals, res):
+    phs = ent['phs']
+    sub = [(ent['S'], s)] + list(zip(phs, actuals))
+    out = []
+    for nm, ih, goal in _lemmas(ent):
+        g = z3.substitute(goal, *sub)
+        if nm == 'all-satisfy':
+            g = z3.ForAll([z3.Int('__i')], g)  # proved for an arbitrary index
+        out.append(g)
+    return out
